@@ -27,6 +27,7 @@ package transaction
 // transaction's own commit moves the cursor from Index-1 to Index): an in-progress commit sits at the cursor
 //@   requires v3CommitState(transaction) == configapi.TransactionPhaseStatus_IN_PROGRESS ==> configuration.Committed.Change == transaction.ID.Index - 1 || configuration.Committed.Change == transaction.ID.Index
 //@   ensures {C20} commit-starts-in-log-order: old(v3CommitState(transaction)) == configapi.TransactionPhaseStatus_PENDING && v3CommitState(transaction) != configapi.TransactionPhaseStatus_PENDING ==> old(configuration.Committed.Change) == transaction.ID.Index - 1 && v3CommitState(transaction) == configapi.TransactionPhaseStatus_IN_PROGRESS
+//@   ensures {C20} commit-waits-for-the-previous-commit: old(v3CommitState(transaction)) == configapi.TransactionPhaseStatus_PENDING && v3CommitState(transaction) != configapi.TransactionPhaseStatus_PENDING && old(configuration.Committed.Target) != transaction.ID.Index && v3LastTxnGetOK ==> v3LastReadIndex == old(configuration.Committed.Index) && v3LastReadChangeCommit > configapi.TransactionPhaseStatus_IN_PROGRESS
 //@   ensures {C20} commit-completes-only-with-the-cursor: v3CommitState(transaction) == configapi.TransactionPhaseStatus_COMPLETE && old(v3CommitState(transaction)) != configapi.TransactionPhaseStatus_COMPLETE ==> old(v3CommitState(transaction)) == configapi.TransactionPhaseStatus_IN_PROGRESS && configuration.Committed.Change == transaction.ID.Index && transaction.Status.Change.Ordinal == configuration.Committed.Ordinal
 //@   ensures {C20} values-committed-only-after-validation: configuration.Committed.Revision != old(configuration.Committed.Revision) ==> old(v3CommitState(transaction)) == configapi.TransactionPhaseStatus_IN_PROGRESS && lastGetPluginOK && validateCalls == old(validateCalls) + 1 && lastValidateAccepted && configuration.Committed.Revision == transaction.ID.Index && configuration.Committed.Ordinal == old(configuration.Committed.Ordinal) + 1 && configuration.Committed.Change == transaction.ID.Index && configuration.Committed.Index == transaction.ID.Index
 //@   ensures {C20} failed-commit-cancels-apply: v3CommitState(transaction) == configapi.TransactionPhaseStatus_FAILED && old(v3CommitState(transaction)) != configapi.TransactionPhaseStatus_FAILED ==> old(v3CommitState(transaction)) == configapi.TransactionPhaseStatus_IN_PROGRESS && v3ApplyState(transaction) == configapi.TransactionPhaseStatus_CANCELED && transaction.Status.Change.Commit.Failure != nil && configuration.Committed.Revision == old(configuration.Committed.Revision) && configuration.Committed.Ordinal == old(configuration.Committed.Ordinal)
@@ -54,6 +55,7 @@ package transaction
 //@   ensures {C20} apply-only-after-commit: old(v3CommitState(transaction)) != configapi.TransactionPhaseStatus_COMPLETE ==> v3ApplyState(transaction) == old(v3ApplyState(transaction)) && deviceSetCalls == old(deviceSetCalls) && v3CfgStatusWrites == old(v3CfgStatusWrites) && v3TxnStatusWrites == old(v3TxnStatusWrites)
 //@   ensures {C20} apply-starts-in-ordinal-order: old(v3ApplyState(transaction)) == configapi.TransactionPhaseStatus_PENDING && v3ApplyState(transaction) != configapi.TransactionPhaseStatus_PENDING ==> old(configuration.Applied.Ordinal) == transaction.Status.Change.Ordinal - 1 && (v3ApplyState(transaction) == configapi.TransactionPhaseStatus_IN_PROGRESS || v3ApplyState(transaction) == configapi.TransactionPhaseStatus_ABORTED)
 //@   ensures {C20} apply-behind-unapplied-change-aborts: old(v3ApplyState(transaction)) == configapi.TransactionPhaseStatus_PENDING && v3ApplyState(transaction) == configapi.TransactionPhaseStatus_IN_PROGRESS && old(configuration.Applied.Target) != transaction.ID.Index ==> old(configuration.Applied.Revision) >= transaction.Status.Rollback.Index
+//@   ensures {C20} apply-waits-for-the-previous-apply: old(v3ApplyState(transaction)) == configapi.TransactionPhaseStatus_PENDING && v3ApplyState(transaction) != configapi.TransactionPhaseStatus_PENDING && old(configuration.Applied.Target) != transaction.ID.Index && v3LastTxnGetOK ==> v3LastReadIndex == old(configuration.Applied.Index) && (old(configuration.Applied.Target) == old(configuration.Applied.Index) ==> v3LastReadChangeApply > configapi.TransactionPhaseStatus_IN_PROGRESS) && (old(configuration.Applied.Target) < old(configuration.Applied.Index) ==> v3LastReadRollbackApply > configapi.TransactionPhaseStatus_IN_PROGRESS)
 //@   ensures {C20} device-contacted-only-in-progress: deviceSetCalls > old(deviceSetCalls) ==> deviceSetCalls == old(deviceSetCalls) + 1 && old(v3ApplyState(transaction)) == configapi.TransactionPhaseStatus_IN_PROGRESS && !(old(configuration.Applied.Ordinal) == transaction.Status.Change.Ordinal && old(configuration.Applied.Revision) == transaction.ID.Index) && configuration.Status.State != configapi.ConfigurationStatus_SYNCHRONIZING && old(configuration.Applied.Term) >= configuration.Status.Mastership.Term
 //@   ensures {C20} applied-revision-only-on-device-success: configuration.Applied.Revision != old(configuration.Applied.Revision) ==> configuration.Applied.Revision == transaction.ID.Index && deviceSetCalls == old(deviceSetCalls) + 1 && deviceCode == codes.OK && configuration.Applied.Index == transaction.ID.Index && configuration.Applied.Ordinal == transaction.Status.Change.Ordinal
 //@   ensures {C20} apply-completes-only-with-the-cursor: v3ApplyState(transaction) == configapi.TransactionPhaseStatus_COMPLETE && old(v3ApplyState(transaction)) != configapi.TransactionPhaseStatus_COMPLETE ==> old(v3ApplyState(transaction)) == configapi.TransactionPhaseStatus_IN_PROGRESS && configuration.Applied.Ordinal == transaction.Status.Change.Ordinal && configuration.Applied.Revision == transaction.ID.Index
